@@ -184,4 +184,19 @@ PROPERTIES = {
                 bounds_text={"quick": "one service with 1-2 RPCs; request with path variables in 3 template shapes (0..2 variables; second bound to an int32/string field with or without the optional keyword), 5 verbs; response graph with a nested type that is used by a field or not, a type reachable only through that nested type (repeated or not) living in another package under an arbitrary short name ([A-Z][a-z]{0,4}, may coincide with other names), and a recursive type; the document is the in-memory v3.Document the real generator builds with the real libopenapi objects"},
                 assumptions=["only the in-memory document is examined: YAML/JSON rendering (and their equivalence), the format parameter and file naming in cmd/protoc-gen-openapiv3 are outside this check",
                              "libopenapi's high-level model code (orderedmap, SchemaProxy, DynamicValue) is executed from its real source by the engine"]),
+    "C20": dict(
+        groups=[
+            dict(G_HTTPGEN,
+                 overlay={"internal/httpgen/zz_verif_c12_common.go": "harness/c12/c12_common.go", "internal/httpgen/zz_verif_c14.go": "harness/c14/c14_codecs.go",
+                          "internal/httpgen/zz_verif_c20.go": "harness/c20/c20_mock_g.go"},
+                 harnesses=[dict(func="VerifC20MockTyping", reach=["C20/typing/decided", "C20/typing/kf-cardinality"], quick=dict(budget=200), thorough=dict(budget=600)),
+                            dict(func="VerifC20MockMapTypes", reach=["C20/map/decided"], quick=dict(budget=100), thorough=dict(budget=300))]),
+            dict(mode="E", schemas=[dict(name="mock", run="go,go-http", param="paths=source_relative;go-http:generate_mock=true")],
+                 load_pkgs=["./gen/mock"], pkgpath="verifmod/gen/mock", test_pkg="./gen/mock", test_pkgname="mock", init=[MOD + "/http", "verifmod/gen/mock"],
+                 overlay={"gen/mock/zz_verif_c20.go": "harness/c20/c20_mock_e.go"},
+                 harnesses=[dict(func="VerifC20Examples", reach=["C20/examples/decided"], quick=dict(budget=200), thorough=dict(budget=600))]),
+        ],
+        bounds_text={"quick": "typing: one response field of symbolic kind (quick 9 / thorough 17 kinds) x singular/optional/repeated/map; map types: map<K, Message> with 4 key kinds, value message in the same or another Go package; examples (emitted mock, regenerated with generate_mock=true): the example table is overwritten with arbitrary strings (int64 examples <= 11 chars over [0-9-x], strings <= 3, bool examples), math/rand.Intn is an arbitrary in-range index"},
+        assumptions=E_ASSUMPTIONS + ["'builds' is decided as typing obligations on the emitted assignments (necessary conditions), not by compiling; the schema of the E-mode part compiles as a side effect of loading it",
+                                     "conformance of mock answers to the published response schema (S3) is not covered yet"]),
 }
